@@ -315,8 +315,38 @@ func checkC20Membership(w *World, r *Report, recv *ssa.Function, smT interface{}
 				okL = true
 			}
 		})
-		r.Check(okL && len(ml) > 0, "C20.R3", fname(recv)+":memberLeave", "the member removed is the one GetByHost finds for the reported address", site,
-			"no memberLeave case that removes the member found for msg.ListenAddr")
+		if okL && len(ml) > 0 {
+			// ... on every path: an unreachable report for a member is never ignored. From the memberLeave case every
+			// path to the end of the message passes the removal, or the edge on which GetByHost found nobody.
+			rem := make([]bool, len(g.ins))
+			pv.changesUnder(g, recv, ml, false, 0, func(n int, mp, _, _ string) {
+				if strings.HasPrefix(mp, "call:(*cluster.MemberSet).GetByHost(P0.members,assert<cluster.memberLeave>(") {
+					rem[n] = true
+				}
+			})
+			notFound, _ := w.nilEdges(g, "re:call:\\(\\*cluster\\.MemberSet\\)\\.GetByHost\\(P0\\.members,assert<cluster\\.memberLeave>.*")
+			cut := map[Edge]bool{}
+			for _, e := range notFound {
+				cut[e] = true
+			}
+			// (a member the set does not contain needs no removal)
+			_, notContained := w.callEdges(g, "call:(*cluster.MemberSet).Contains(P0.members,call:(*cluster.MemberSet).GetByHost(P0.members,assert<cluster.memberLeave>(")
+			for _, e := range notContained {
+				cut[e] = true
+			}
+			var starts []int
+			for _, e := range ml {
+				starts = append(starts, e.to)
+			}
+			rr := g.reach(starts, rem, cut)
+			for _, x := range g.returns {
+				if rr[x] {
+					okL = false
+				}
+			}
+		}
+		r.Check(okL && len(ml) > 0, "C20.R3", fname(recv)+":memberLeave", "the member GetByHost finds for the reported address is removed, on every path where one is found", site,
+			"no memberLeave case that always removes the member found for msg.ListenAddr: an unreachable member can stay in the list")
 		// the report exists at all (content is part of its definition)
 		nRep := 0
 		for _, fn := range pv.funcs {
